@@ -321,7 +321,7 @@ def random_program(rng, n_leaves=None, n_ops=None, p_norg=0.15, max_numel=8, max
             else:
                 P.add_detach(s)
         ts = P.build(torch.float64)
-        if all(float(t.abs().max()) <= max_abs for t in ts if t.numel() > 0) and \
+        if all(float(t.detach().abs().max()) <= max_abs for t in ts if t.numel() > 0) and \
                 all(numel(nd.shape) <= 3 * max_numel for nd in P.nodes) and \
                 any(P.requires_grad(i) and P.nodes[i].kind != "leaf" for i in range(len(P.nodes))):
             return P
@@ -330,3 +330,120 @@ def random_program(rng, n_leaves=None, n_ops=None, p_norg=0.15, max_numel=8, max
 
 def differentiable_nonleaves(P: Program):
     return [i for i, nd in enumerate(P.nodes) if nd.kind in ("aff", "mul") and P.requires_grad(i)]
+
+
+# --------------------------------------------------------------------------------- trunk / heads
+def grow(rng, P: Program, pool: list, k: int, max_numel=8):
+    """k random ops whose sources are drawn from `pool`; new nodes join the pool"""
+    for _ in range(k):
+        w = [(3 if P.requires_grad(i) else 1) for i in pool]
+        s = rng.choices(pool, w)[0]
+        if numel(P.nodes[s].shape) > max_numel:
+            pool.extend(P.add_aff(lambda x: x[0].sum(), [s], f"n{s}.sum()"))
+            continue
+        if rng.random() < 0.55 or len(pool) < 2:
+            pool.extend(random_unary(rng, P, s))
+        else:
+            t = rng.choices(pool, w)[0]
+            pool.extend(random_binary(rng, P, s, t))
+    return pool
+
+
+def to_scalar(rng, P: Program, nodes: list):
+    """a 0-d node depending on all `nodes`"""
+    parts = []
+    for n in nodes:
+        if len(P.nodes[n].shape) == 0:
+            parts.append(n)
+        else:
+            c = rng.choice([1, 1, 2, -1])
+            parts.append(P.add_aff(lambda x, c=c: (x[0] * c).sum(), [n], f"({c}*n{n}).sum()")[0])
+    cur = parts[0]
+    for p in parts[1:]:
+        if rng.random() < 0.3:
+            cur = P.add_mul(cur, p)
+        else:
+            cur = P.add_aff(lambda x: x[0] + x[1], [cur, p], f"n{cur}+n{p}")[0]
+    return cur
+
+
+class MTL:
+    """a trunk/heads program: shared leaves -> features -> per-task heads -> scalar losses"""
+
+    def __init__(self):
+        self.P = Program()
+        self.shared_leaves: list = []
+        self.features: list = []
+        self.task_leaves: list = []     # per task, leaves (requiring grad) its loss uses around the features
+        self.losses: list = []
+
+    def nested_features(self):
+        """some feature is computed from another feature: then a task's backward pass traverses trunk
+        nodes, and retain_graph=False makes the later sweeps fail (outside C13's hypothesis)"""
+        P = self.P
+        for f in self.features:
+            seen, stack = set(), list(P.parents(f))
+            while stack:
+                n = stack.pop()
+                if n in seen:
+                    continue
+                seen.add(n)
+                if n in self.features:
+                    return True
+                stack.extend(P.parents(n))
+        return False
+
+
+def random_mtl(rng, heads_disjoint=True, max_abs=300):
+    for _ in range(300):
+        M = MTL()
+        P = M.P
+        for _ in range(rng.choice([1, 2, 2, 3])):
+            sh = rng.choice(SHAPES)
+            M.shared_leaves.append(P.add_leaf(sh, [rng.choice([-2, -1, 1, 2, 3]) for _ in range(numel(sh))],
+                                              rg=rng.random() >= 0.1))
+        if not any(P.nodes[i].rg for i in M.shared_leaves):
+            P.nodes[M.shared_leaves[0]].rg = True
+        pool = list(M.shared_leaves)
+        grow(rng, P, pool, rng.choice([1, 2, 3, 4]))
+        trunk = [i for i in pool if P.nodes[i].kind != "leaf" and P.requires_grad(i)]
+        if not trunk:
+            continue
+        nf = min(len(trunk), rng.choice([1, 1, 2, 3]))
+        M.features = rng.sample(trunk, nf)
+        T = rng.choice([1, 2, 2, 3, 4])
+        prev_leaves: list = []
+        ok = True
+        for t in range(T):
+            own = []
+            for _ in range(rng.choice([0, 1, 1, 2])):
+                sh = rng.choice(SHAPES[:8])
+                own.append(P.add_leaf(sh, [rng.choice([-2, -1, 1, 2]) for _ in range(numel(sh))],
+                                      rg=rng.random() >= 0.1))
+            if prev_leaves and rng.random() < 0.3:
+                own.append(rng.choice(prev_leaves))           # a parameter shared by two tasks
+            used_feats = [f for f in M.features if rng.random() < 0.7] or [rng.choice(M.features)]
+            hp = list(used_feats) + own
+            if not heads_disjoint and rng.random() < 0.3 and M.shared_leaves:
+                hp.append(rng.choice(M.shared_leaves))       # reaches a shared leaf around the features
+            start = len(P.nodes)
+            grow(rng, P, hp, rng.choice([0, 1, 2, 3]))
+            new_nodes = list(range(start, len(P.nodes)))
+            # the loss must depend on every used feature and own leaf: combine sinks
+            consumed = set()
+            for n in new_nodes:
+                consumed.update(P.parents(n))
+            sinks = [n for n in dict.fromkeys(hp) if n not in consumed]
+            loss = to_scalar(rng, P, sinks)
+            if not P.requires_grad(loss):
+                ok = False
+                break
+            M.losses.append(loss)
+            M.task_leaves.append(sorted(P.reach_leaves([loss], excluded=set(M.features))))
+            prev_leaves.extend(l for l in own if P.nodes[l].rg)
+        if not ok:
+            continue
+        ts = P.build(torch.float64)
+        if all(float(t.detach().abs().max()) <= max_abs for t in ts if t.numel() > 0):
+            return M
+    raise RuntimeError("could not generate a bounded mtl program")
